@@ -335,7 +335,7 @@ int main(int argc, char **argv)
 
 	/* S5: auto-aligned front end */
 	{
-		const int Lmax5 = thorough ? 13 : 10;
+		const int Lmax5 = thorough ? 12 : 10;
 		char nm[160];
 		for (int L = 0; L <= Lmax5; L++) {
 			snprintf(nm, sizeof(nm), "S5 auto-aligned: 5^%d strings x 8 alignments, boundary state", L);
@@ -404,7 +404,7 @@ finish:;
 	                 : "40^4 class-representative words from the boundary state (exhaustive for that alphabet only); 21^4 from every other reachable state; two-word calls over 6^8",
 	        thorough ? "11^8 lane classes; 2^32 low halves x 6 high halves; 2^32 high halves x 2 low halves; 5^8 and 3^8 from non-boundary states; two-word calls over 3^16"
 	                 : "11^8 lane classes; 5^8 and 3^8 from non-boundary states",
-	        thorough ? "lengths 0..13 over {41,80,C2,C0,E1}, 14..18 over {41,C2,80}, 19..24 over {C2,80}, 8 alignments; mid-sequence starts for lengths 8..9; single cuts for lengths 8..12 (5^20 of the design is out of reach: the alphabet shrinks with the length instead)"
+	        thorough ? "lengths 0..12 over {41,80,C2,C0,E1}, 13..18 over {41,C2,80}, 19..24 over {C2,80}, 8 alignments; mid-sequence starts for lengths 8..9; single cuts for lengths 8..12 (5^20 of the design is out of reach: the alphabet shrinks with the length instead)"
 	                 : "lengths 0..10 over {41,80,C2,C0,E1}, 11..14 over {41,C2,80}, 15..20 over {C2,80}, 8 alignments; mid-sequence starts for length 8; single cuts for lengths 8..10",
 	        g_jobs);
 	fprintf(f, "  \"caps_hit\": [");
